@@ -99,6 +99,10 @@ func (vm *VM) FindModuleByName(name string) *Module {
 func (vm *VM) CheckDepedency(name string) error {
 	moduleID, exists := vm.moduleGraph.GetIDFromName(name)
 	if exists {
+		// record the dependency (current module -> imported module): importing a module that
+		// is already known - possibly one that is still being loaded - adds no module, but the
+		// edge is what closes a cycle
+		vm.moduleGraph.AddDependency(vm.csModuleID, name, moduleID)
 		// check circular dependency
 		if vm.moduleGraph.CheckCircularDepedency(vm.csModuleID, moduleID) {
 			return zerr.ModuleCircularDependency()
